@@ -29,7 +29,7 @@ def run_split(obs, binary, mode, total_cases, seed, nproc=16, extra=None, wrappe
     chunk = max(1, total_cases // nproc)
     jobs = []
     for i in range(nproc):
-        e = dict(VP_MODE=mode, VP_CASES=chunk, VP_FIRST=i * chunk, VP_SEED=seed)
+        e = dict(VP_MODE=mode, VP_CASES=chunk, VP_FIRST=i * chunk, VP_SEED=seed, VP_PLACE=i % 8)
         if extra:
             e.update(extra)
         jobs.append(e)
@@ -61,14 +61,14 @@ def c06(tier, seed):
         b = vlib.compile_many(work, 'canmon_asan', can_sources(), vlib.ASAN_FLAGS)
         R = 6 if tier == 'quick' else 400
         nseeds = 8 if tier == 'quick' else 64
-        jobs = [dict(VP_SEED=int(seed) * 100 + i, VP_REPS=R) for i in range(nseeds)]
+        jobs = [dict(VP_SEED=int(seed) * 100 + i, VP_REPS=R, VP_PLACE=i % 8) for i in range(nseeds)]
         vlib.run_parallel(lambda e: vlib.run_monitor(obs, b, e, tag='can'), jobs)
         cov = dict(distinct_nontrivial=int(obs.stats.get('nontrivial', 0)) // nseeds,
                    long_lengths_observed=int(obs.stats.get('can.long_lengths_observed', 0)),
                    long_lengths_model_mismatch=int(obs.stats.get('can.long_lengths_model_mismatch', 0)),
                    rule='exhaustive payload length 0..64 x {classic, FD} x 4 builders (full one-shot, full SetPayload+fields+Finalize, '
                         'brief one-shot, brief copy+fields+Finalize) x 77 identifier cases (0, 1, every id 0x7F0..0x811, every single id bit, '
-                        '2^29-1, ids >= 2^29, ...) + %d random ids x payload classes x 2 placements (16 KiB random arena: everything outside the padded '
+                        '2^29-1, ids >= 2^29, ...) + %d random ids x payload classes x 2 placements (16 KiB random arena at byte offsets 0..7: everything outside the padded '
                         'message must be unchanged; exact-extent heap message and source under ASan), %d seeds; return value, payload '
                         'length read-back and payload pointer checked.  Lengths 65..2028 are observed and counted only (outside the '
                         'statement).  Non-trivial: distinct (length, builder, variant, identifier class) cells.' % (R, nseeds),
